@@ -66,6 +66,11 @@ func (a *scripted) Authenticate(params interface{}) (bool, interface{}, error) {
 	switch {
 	case o == "ok":
 		return true, principalOf(a.name), nil
+	case o == "okro":
+		if admScope(sar.RequiredScopes) {
+			return true, nil, oerr.New(http.StatusForbidden, rejMessage(a.name, o))
+		}
+		return true, principalOf(a.name), nil
 	case o == "nil":
 		return true, nil, nil
 	case o == "plain":
@@ -283,7 +288,7 @@ func checkDirectOne(c DirectCase, reg map[string]bool, vec Vec, orders [][]strin
 		if v := kit.Guard("RouteAuthenticator.Authenticate", func() { applies, usr, err = ra.Authenticate(vecRequest("GET", "/", vec), route) }); v != nil {
 			return v
 		}
-		want := evalAlt(orders[i], reg, vec)
+		want := evalAlt(c.Alts[i], orders[i], reg, vec)
 		got := fmt.Sprintf("(applies=%v, principal=%v, err=%s)", applies, usr, errText(err))
 		switch want.kind {
 		case "na":
